@@ -198,10 +198,12 @@ EXPORT errno_t _mbsrtowcs_s_chk(size_t *restrict retvalp,
     } else {
         if (dest) {
             size_t tmp = 0;
-            errno = 0;
-            /* with NULL either 0 or -1 is returned */
-            if (*retvalp > RSIZE_MAX_WSTR) { /* else ESNOSPC */
-                tmp = mbsrtowcs(NULL, srcp, len - 1, &orig_ps);
+            /* (size_t)-1: illegal sequence, errno is EILSEQ; else ESNOSPC */
+            if (*retvalp == (size_t)-1) {
+                tmp = 1;
+                if (errno == 0) {
+                    errno = EILSEQ;
+                }
             }
             rc = (tmp == 0) ? ESNOSPC : errno;
             /* the entire src must have been copied, if not reset dest
